@@ -377,9 +377,19 @@ def _np_where(cond, *xy):
 
 
 def _asarr(x, *a, **k):
-    if isinstance(x, (list, tuple)):
-        return arr(_deep(x))
-    return x
+    d = k.get('dtype', a[0] if a else None)
+    out = arr(_deep(x)) if isinstance(x, (list, tuple)) else x
+    if d is not None and (d is int or getattr(d, '_is_int', False) or (isinstance(d, str) and d.startswith('int')) or (isinstance(d, OpaqueFn) and d.name in ('numpy.int64', 'numpy.int32', 'numpy.int_'))):
+        # conversion to an integer dtype truncates towards zero (numpy semantics); symbolic entries are left as they are
+        trunc = lambda v: (sp.Integer(int(v)) if isinstance(v, (sp.Rational, sp.Float)) and not isinstance(v, sp.Integer) else v)
+        if is_arr(out) and out.dtype == object:
+            out = vmap(trunc, out)
+        elif isinstance(out, sp.Basic):
+            out = trunc(out)
+    return out
+
+
+_asarr._wants_dtype = True
 
 
 def _deep(x):
@@ -503,6 +513,7 @@ NP_FUNCS = {
     'numpy.expand_dims': lambda a, axis: np.expand_dims(np.asarray(a, dtype=object), axis), 'numpy.squeeze': lambda a, axis=None: np.squeeze(np.asarray(a, dtype=object), axis=axis),
     'numpy.reshape': lambda a, shape: np.reshape(np.asarray(a, dtype=object), shape), 'numpy.ravel': lambda a: np.ravel(np.asarray(a, dtype=object)),
     'numpy.tile': lambda a, reps: np.tile(np.asarray(a, dtype=object), (int(reps) if np.ndim(reps) == 0 else tuple(int(v) for v in np.ravel(reps)))), 'numpy.repeat': lambda a, r, axis=None: np.repeat(np.asarray(a, dtype=object), (int(r) if np.ndim(r) == 0 else [int(v) for v in np.ravel(r)]), axis=axis),
+    'numpy.apply_along_axis': lambda f, axis, a_, *args, **kw: _apply_along(f, axis, a_, args, kw),
     'numpy.block': lambda blocks: np.block([[np.asarray(b, dtype=object) for b in row] if isinstance(row, (list, tuple)) else np.asarray(row, dtype=object) for row in blocks]),
     'numpy.ascontiguousarray': lambda a, **k: np.array(np.asarray(a, dtype=object)), 'numpy.asfortranarray': lambda a, **k: np.array(np.asarray(a, dtype=object)),
     'numpy.copy': lambda a, **k: np.array(np.asarray(a, dtype=object)), 'numpy.linspace': lambda a, b, n_=50, **k: arr([a + (b - a) * sp.Rational(i, int(n_) - 1) for i in range(int(n_))]) if int(n_) > 1 else arr([a]),
@@ -848,7 +859,7 @@ class SymEval:
                         return self.call_fn(ln, [x], {}, p)
                     return len(x)
                 return _len
-            return {'range': lambda *a: list(range(*[int(x) for x in a])), 'len': len, 'int': lambda x: (S(int(x)) if isinstance(x, str) else x), 'float': lambda x: (S(int(x)) if isinstance(x, str) and x.strip().lstrip('+-').isdigit() else (S(float(x)) if isinstance(x, str) else x)),
+            return {'range': lambda *a: list(range(*[int(x) for x in a])), 'len': len, 'int': _int_model, 'float': lambda x: (S(int(x)) if isinstance(x, str) and x.strip().lstrip('+-').isdigit() else (S(float(x)) if isinstance(x, str) else x)),
                     'abs': lambda x: sp.Abs(x), 'sum': lambda x, start=0: sum(self.iterate(x, n), start), 'min': lambda *a, **k: _minmax(sp.Min, min, a, k, lambda v: self.iterate(v, n)),
                     'max': lambda *a, **k: _minmax(sp.Max, max, a, k, lambda v: self.iterate(v, n)), 'list': lambda *a: list(self.iterate(a[0], n)) if a else [], 'tuple': lambda *a: tuple(self.iterate(a[0], n)) if a else (),
                     'isinstance': lambda *a: Opaque, 'complex': lambda a, b=0: a + sp.I * b, 'round': lambda x, n=0: x,
@@ -1995,6 +2006,36 @@ def _minmax(symf, pyf, a, k, it):
     if all(isinstance(v, (int, sp.Integer)) and not isinstance(v, bool) for v in vals):
         return sp.Integer(pyf(int(v) for v in vals))
     return symf(*vals)
+
+
+def _int_model(x=0, *base):
+    """builtin int(): text and concrete numbers are converted (truncation towards zero); a symbolic value is left as it is (its integrality is the rule's assumption)"""
+    if isinstance(x, str):
+        try:
+            return S(int(x, *[int(b) for b in base]))
+        except ValueError as e:
+            raise ModelError('ValueError', str(e))
+    if isinstance(x, (bool, np.bool_)):
+        return S(int(x))
+    if isinstance(x, (int, float)):
+        return S(int(x))
+    if isinstance(x, sp.Basic) and x.is_number and x.is_real and x.is_finite:
+        return sp.Integer(int(x))
+    return x
+
+
+_int_model._is_int = True
+
+
+def _apply_along(f, axis, a_, args, kw):
+    a_ = np.asarray(a_, dtype=object)
+    ax = int(axis) % max(a_.ndim, 1)
+    if a_.ndim <= 1:
+        return f(a_, *args, **kw)
+    moved = np.moveaxis(a_, ax, -1)
+    res = [np.asarray(f(moved[i], *args, **kw), dtype=object) for i in np.ndindex(moved.shape[:-1])]
+    out = np.array(res, dtype=object).reshape(moved.shape[:-1] + np.shape(res[0]))
+    return np.moveaxis(out, -1, ax) if np.ndim(res[0]) == 1 else out
 
 
 def _own_walk(fn):
